@@ -514,7 +514,7 @@ def finish(pid, tier, seed, t0, runs, results, bres, no_verdict):
         for m in no_verdict:
             print('NO-VERDICT: property=%s %s' % (pid, m))
         return 2
-    print('OK property=%s tier=%s obligations=%d discharged=%d known_findings=%d wall=%.1fs' % (pid, tier, n_oblig, n_ok, len(known_hit), wall))
+    print('OK property=%s tier=%s obligations=%d discharged=%d%s known_findings=%d wall=%.1fs' % (pid, tier, n_oblig, n_ok, (' bounded_stand_ins=%d' % len(bounded)) if bounded else '', len(known_hit), wall))
     return 0
 
 
